@@ -15,14 +15,14 @@ import (
 
 // Ctx is the per-run context handed to a property's rule set.
 type Ctx struct {
-	armReach map[byte]map[*ssa.Function]bool
+	armReach      map[byte]map[*ssa.Function]bool
 	malformedDrop string
-	P        *core.Prog
-	R        *core.Report
-	Tier     string
-	Repo     string
-	Verif    string
-	err      *core.ErrEngine
+	P             *core.Prog
+	R             *core.Report
+	Tier          string
+	Repo          string
+	Verif         string
+	err           *core.ErrEngine
 
 	evReach map[*ssa.Function]bool
 	gScope  map[*ssa.Function]bool
@@ -833,4 +833,162 @@ func (c *Ctx) readMessageHandled(rule string) {
 		R.Check(handled, rule, "consumeSingleCommand:read-message-is-handled:"+retDescr(r), c.at(r), "a message that was read is dispatched, or the connection ends: it is never dropped silently", "the successful return passes through handleCommand", "after a message was read successfully the loop can return nil without dispatching it (the 'server is closing' path): the message is dropped, a Query / Sync gets no ReadyForQuery, a Terminate is ignored, and the client waits on an open connection")
 	}
 	R.Floor(rule, "successful returns of the command step after a read", n, 1)
+}
+
+// pdSite is one place where a ParameterDescription frame ('t') is written, with the operands of its count and of
+// its per-type OIDs expressed in the terms of handleDescribe: (root value in handleDescribe, field path from it).
+type pdSite struct {
+	fn    *ssa.Function       // function that writes the frame
+	count ssa.CallInstruction // AddInt16 of the frame
+	// operand of len() in the count, resolved to handleDescribe's values (one entry per call site of fn; one when inlined)
+	countRoot  []ssa.Value
+	countPath  []string
+	countIsLen bool
+	elems      []ssa.CallInstruction // AddInt32 calls of the frame
+	elemOK     []bool                // operand is an element of the very list the count measures
+	at         []ssa.Instruction     // the call site in handleDescribe (or the count itself when inlined)
+}
+
+// paramDescriptionSites finds the ParameterDescription frame wherever it is written (a method of Session, a plain
+// function, a helper that takes the whole statement, or inline in handleDescribe) and resolves what it announces.
+func (c *Ctx) paramDescriptionSites() []pdSite {
+	hd := c.P.Method("wire", "Session", "handleDescribe")
+	var out []pdSite
+	for _, fn := range c.P.ScopeFuncs() {
+		if !c.P.InPkg(fn, "wire") {
+			continue
+		}
+		var starts []ssa.CallInstruction
+		for _, ci := range core.Calls(fn) {
+			if writerMethod(ci) == "Start" {
+				starts = append(starts, ci)
+			}
+		}
+		for _, st := range starts {
+			if k, ok := core.ConstInt(st.Common().Args[1]); !ok || k != 't' {
+				continue
+			}
+			under := func(ci ssa.CallInstruction) bool {
+				if ci == st || !core.InstrDominates(st, ci) {
+					return false
+				}
+				for _, s2 := range starts {
+					if s2 != st && core.InstrDominates(st, s2) && core.InstrDominates(s2, ci) {
+						return false
+					}
+				}
+				return true
+			}
+			site := pdSite{fn: fn}
+			var lenRoot ssa.Value
+			lenPath := ""
+			for _, ci := range core.Calls(fn) {
+				if !under(ci) {
+					continue
+				}
+				if isWriterMethod(ci, "AddInt16") && site.count == nil {
+					site.count = ci
+					if x, ok := core.IsLenOf(core.StripConv(ci.Common().Args[1])); ok {
+						site.countIsLen = true
+						lenRoot, lenPath = pathOf(x)
+					}
+				}
+			}
+			for _, ci := range core.Calls(fn) {
+				if under(ci) && isWriterMethod(ci, "AddInt32") {
+					site.elems = append(site.elems, ci)
+					r, p := pathOf(core.StripConv(ci.Common().Args[1]))
+					site.elemOK = append(site.elemOK, site.countIsLen && r == lenRoot && p == lenPath+"[]")
+				}
+			}
+			if site.count == nil {
+				continue
+			}
+			switch {
+			case fn == hd:
+				site.countRoot, site.countPath, site.at = []ssa.Value{lenRoot}, []string{lenPath}, []ssa.Instruction{site.count}
+			case hd != nil:
+				prm, isP := lenRoot.(*ssa.Parameter)
+				for _, w := range callsIn(hd, calleeIs(fn)) {
+					var r ssa.Value
+					p := "?"
+					if isP {
+						for i, fp := range fn.Params {
+							if fp == prm && i < len(w.Common().Args) {
+								r, p = pathOf(w.Common().Args[i])
+								p += lenPath
+							}
+						}
+					}
+					site.countRoot, site.countPath, site.at = append(site.countRoot, r), append(site.countPath, p), append(site.at, w)
+				}
+			}
+			out = append(out, site)
+		}
+	}
+	return out
+}
+
+// describeSink is one (columns, formats) pair that reaches Columns.Define from handleDescribe, with the block at
+// which the pair is chosen (the call's block, or the predecessor of the merge when both operands are phi values).
+type describeSink struct {
+	at       ssa.Instruction
+	where    *ssa.BasicBlock
+	cols, fm ssa.Value
+}
+
+// describeSinks resolves what handleDescribe hands to Columns.Define: directly, through a helper of package wire
+// (method or plain function), or through local variables merged after the switch.
+func (c *Ctx) describeSinks(hd *ssa.Function) []describeSink {
+	def := c.P.Method("wire", "Columns", "Define")
+	if def == nil || hd == nil {
+		return nil
+	}
+	var out []describeSink
+	add := func(ci ssa.CallInstruction, cols, fm ssa.Value) {
+		cp, ok1 := core.Strip(cols).(*ssa.Phi)
+		fp, ok2 := core.Strip(fm).(*ssa.Phi)
+		if ok1 && ok2 && cp.Block() == fp.Block() {
+			for i, pred := range cp.Block().Preds {
+				out = append(out, describeSink{ci, pred, cp.Edges[i], fp.Edges[i]})
+			}
+			return
+		}
+		out = append(out, describeSink{ci, ci.Block(), cols, fm})
+	}
+	for _, ci := range core.Calls(hd) {
+		callee := core.StaticCallee(ci)
+		if callee == nil {
+			continue
+		}
+		a := ci.Common().Args
+		if callee == def {
+			add(ci, a[0], a[len(a)-1])
+			continue
+		}
+		if !c.P.InPkg(callee, "wire") || callee.Blocks == nil {
+			continue
+		}
+		for _, hi := range callsIn(callee, calleeIs(def)) {
+			ha := hi.Common().Args
+			pc, ok1 := core.Strip(ha[0]).(*ssa.Parameter)
+			pf, ok2 := core.Strip(ha[len(ha)-1]).(*ssa.Parameter)
+			if !ok1 || !ok2 {
+				continue
+			}
+			var cols, fm ssa.Value
+			for i, p := range callee.Params {
+				if i < len(a) && p == pc {
+					cols = a[i]
+				}
+				if i < len(a) && p == pf {
+					fm = a[i]
+				}
+			}
+			if cols != nil && fm != nil {
+				add(ci, cols, fm)
+			}
+		}
+	}
+	return out
 }
